@@ -128,7 +128,7 @@ def one_pair(res, name, dom, rows, rows2, params, seed, tag):
         what = (f'{name} {params}: cost charged over {n} releases/selections on a neighbouring pair is {total:.6g} {kind}, budget implied by (eps, delta) is {B:.6g}')
         res.violation('failing-input', what, {'request': canon, 'observed': {'charges': [c for c in ch], 'total': total, 'budget': B}},
                       key=f'{name}:overspend' + (':bounded' if params.get('bounded') else ''))
-    return total / B
+    return total / B if B > 0 else (float("inf") if total > 0 else 0.0)
 
 
 def directed_mwem_bounded(res, seed):
